@@ -294,6 +294,23 @@ func genCase(t *rapid.T) Case {
 			if rapid.Bool().Draw(t, "hasret") {
 				a.Ret = actionType("ret", "")
 			}
+			// A parameter called string is renamed on the proxy side only; in the
+			// stub it shadows the type wherever the code of a later step spells
+			// the type out (another parameter or a result which is a list, map or
+			// tuple of strings): that is the listed identifier finding again, so
+			// the name only stays where no such type follows.
+			if vt.Known("C05:identifier-hygiene:param") {
+				spelled := func(ty string) bool { return ty != "str" && strings.Contains(ty, "str") }
+				clash := spelled(a.Ret) && a.Ret != "Vec<str>"
+				for _, p := range a.Params {
+					clash = clash || spelled(p.Type)
+				}
+				for k := range a.Params {
+					if a.Params[k].Name == "string" && clash {
+						a.Params[k].Name = "stringx"
+					}
+				}
+			}
 			// overloads: now and then a method takes the name of an earlier one
 			// of the interface, with a different parameter list
 			if j > 0 && rapid.IntRange(0, 4).Draw(t, "overload") == 0 {
